@@ -182,6 +182,8 @@ class Agent:
         t = pdu["type"]
         oids = pdu["varbinds"]
         skip = self._skip_v1(version)
+        if t == "get" and self.cfg.get("echo"):
+            return 0, 0, [(o, ["int", i]) for i, o in enumerate(oids)]
         if t == "get":
             out = []
             for i, o in enumerate(oids):
